@@ -228,7 +228,7 @@ pub fn run(tier: Tier) -> i32 {
     let must_err = AtomicU64::new(0);
     let ok_count = AtomicU64::new(0);
     let err_count = AtomicU64::new(0);
-    par_for(lines.len(), 16, |i| {
+    rep.par_for(lines.len(), 16, "C17 part 1", |i| {
         let line = &lines[i];
         rep.eval(1);
         let one = [line.as_str()];
